@@ -334,6 +334,12 @@ func (e *Engine) trustedBase() []string {
 			out = append(out, "assumed contract: "+c.Header)
 		}
 	}
+	for _, k := range e.spec.Order {
+		c := e.spec.Contracts[k]
+		if !c.Assumed && c.Pure {
+			out = append(out, "stability (pure) of verified function: "+c.Header+" - its result is treated as a function of its arguments at call sites")
+		}
+	}
 	for _, f := range e.spec.Facts {
 		if f.Kind == "axiom" {
 			out = append(out, "axiom "+f.Name+": "+f.Text)
